@@ -64,15 +64,18 @@ def do_import(pid, k, wt, sub='seed', as_k=None):
 def do_run(name, checks, tier='quick'):
     d = os.path.join(VERIF, 'seeded', name)
     meta = json.load(open(f'{d}/meta.json'))
-    rc, out = sh('git -C /repo status --porcelain --untracked-files=no')
-    assert out.strip() == '', '/repo has tracked modifications: ' + out
-    rc, out = sh(f'git -C /repo apply {d}/patch.diff')
+    # a scratch copy of /repo's HEAD (OMEGA_SRC): /repo itself stays
+    # untouched, so other runs against it are not disturbed
+    scratch = f'/var/tmp/omega_seed_run_{os.getpid()}'
+    sh(f'rm -rf {scratch}; mkdir -p {scratch}')
+    sh(f'git -C /repo archive HEAD | tar -x -C {scratch}')
+    rc, out = sh(f'git apply {d}/patch.diff', cwd=scratch)
     assert rc == 0, out
     try:
         for c in checks:
             t = time.time()
             rc, out = sh(f'./check {c} --tier {tier}', cwd=VERIF,
-                         env=dict(VERIF_NO_EVIDENCE='1'))
+                         env=dict(VERIF_NO_EVIDENCE='1', OMEGA_SRC=scratch))
             kinds = sorted({ln.split('kind=')[1].split()[0]
                             for ln in out.splitlines() if 'kind=' in ln})
             meta['detected_by'][f'{c}:{tier}'] = dict(
@@ -83,7 +86,7 @@ def do_run(name, checks, tier='quick'):
             if rc not in (0, 1):
                 print(out[-1500:])
     finally:
-        sh('git -C /repo checkout -- .')
+        sh(f'rm -rf {scratch}')
         # replay files of seeded runs are not kept
     json.dump(meta, open(f'{d}/meta.json', 'w'), indent=1)
 
